@@ -29,6 +29,7 @@ class FullGen:
         self.temp_bias = temp_bias  # one operand in `temp_bias` is forced to need a temporary (0 = never)
         self.kinds = set()
         self.uses_hbuff = False
+        self.empty_data = draw(st.booleans()) if draw is not None else False  # the program will end in a DATA line with an empty item (switches the READ rewriting on)
 
     def d(self, s):
         return self.draw(s)
@@ -103,9 +104,24 @@ class FullGen:
             if self.d(st.integers(0, 3)) == 0 and g.strings:
                 g.n_conv += 1
                 f = self.d(st.sampled_from(["STR$", "HEX$", "STRING$"]))
-                call = {"STR$": ["fn", "STR$", [g.num_leaf()]], "HEX$": ["fn", "HEX$", [["num", "255", 255]]],
-                        "STRING$": ["fn", "STRING$", [["num", "3", 3], ["str", "*"]]]}[f]
+                nest = self.d(st.booleans())  # an operand that is itself a converted call, of the other result type where possible
+                if nest:
+                    self.kinds.add("whole_rhs_call_with_nested_call")
+                    g.n_conv += 1
+                call = {"STR$": ["fn", "STR$", [["fn", "INT", [g.num_leaf()]] if nest else g.num_leaf()]],
+                        "HEX$": ["fn", "HEX$", [["fn", "VAL", [["str", "255"]]] if nest else ["num", "255", 255]]],
+                        "STRING$": ["fn", "STRING$", [["fn", "INT", [["num", "3.5", 3.5]]] if nest else ["num", "3", 3],
+                                                      ["fn", "STR$", [g.num_leaf()]] if nest else ["str", "*"]]]}[f]
                 return ["let", g.str_target(), call, let]
+            if g.strings and self.d(st.integers(0, 2)) == 0:
+                self.kinds.add("whole_rhs_call_with_nested_call")
+                g.n_conv += 2
+                q = self.d(st.integers(0, 2))
+                if q == 0:
+                    return ["let", g.num_target(), ["fn", "VAL", [["fn", "STR$", [g.num_leaf()]]]], let]
+                if q == 1:
+                    return ["let", g.num_target(), ["fn", "INSTR", [["fn", "INT", [["num", "1.5", 1.5]]], g.string(0, plain=True), ["fn", "HEX$", [["num", "10", 10]]]]], let]
+                return ["let", g.num_target(), ["fn", "INT", [["fn", "VAL", [["str", "7.5"]]]]], let]
             return ["let", g.num_target(), self.conv_call(), let]
         if r < 5:
             tail = g.num_lit()
@@ -260,12 +276,21 @@ class FullGen:
     def target(self):
         return self.g.num_target() if self.d(st.booleans()) else self.g.str_target()
 
-    def rw_target(self):
-        """READ / INPUT target: subscripts without convertible functions while that finding is open."""
+    def rw_target(self, read=False):
+        """READ / INPUT / VARPTR operand.  Open findings: such operands are never visited, so subscripts there hold no convertible functions and
+        no other arrays while those findings are open - except for numeric READ targets of a program with an empty DATA item: the tool rewrites
+        those READs into RUN ecb_read_filter(...) statements, which are visited like any other."""
+        numeric = self.d(st.booleans())
+        if read and numeric and self.empty_data:
+            self.kinds.add("read_target_via_filter")
+            return self.g.num_target()
         saved = (self.g.convertible, self.temp_bias)
         if self.on("no_convertible_in_read_input_subscripts"):
             self.g.convertible, self.temp_bias = False, 0
-        t = self.target()
+        if "rw_targets_also_top_level" in self.sw:
+            self.g._in_subscript = True  # open finding: what occurs only inside a READ / INPUT target is never declared - literal subscripts there
+        t = self.g.num_target() if numeric else self.g.str_target()
+        self.g._in_subscript = False
         self.g.convertible, self.temp_bias = saved
         return t
 
@@ -276,7 +301,7 @@ class FullGen:
         g = self.g
         if r == 0:
             self.kinds.add("read")
-            return ["read", [self.rw_target() for _ in range(self.d(st.integers(1, 3)))]]
+            return ["read", [self.rw_target(read=True) for _ in range(self.d(st.integers(1, 3)))]]
         if r == 1:
             self.kinds.add("input")
             prompt = self.d(st.sampled_from([None, "NAME", "", "A B", "X?"]))
@@ -300,7 +325,7 @@ class FullGen:
             return ["let", g.str_target(), g.string(2), self.d(st.booleans())]
         if r == 8:
             self.kinds.add("varptr")
-            return ["let", g.num_target(), ["varptr", self.target()], False]
+            return ["let", g.num_target(), ["varptr", self.rw_target()], False]  # VARPTR operands share the READ / INPUT findings (never visited)
         if r < 11:
             return self.print_stmt()
         self.kinds.add("num_assign")
@@ -390,12 +415,15 @@ def full_programs(draw, switches=frozenset(), max_lines=10, operand_depth=1, wit
                 stmts.append([draw(st.sampled_from(["goto", "gosub"])), draw(st.sampled_from(nums))])
             elif r < 13 and with_control:
                 fg.kinds.add("on_go")
-                stmts.append(["on", g.integer(1), draw(st.sampled_from(["GOTO", "GOSUB"])), draw(st.lists(st.sampled_from(nums), min_size=1, max_size=4))])
+                stmts.append(["on", fg.e() if draw(st.integers(0, 2)) == 0 else g.integer(1), draw(st.sampled_from(["GOTO", "GOSUB"])),
+                              draw(st.lists(st.sampled_from(nums), min_size=1, max_size=4))])
             elif r < 14 and with_control and len(open_loops) < 3:
                 fg.kinds.add("for")
                 v = "L%d" % len(open_loops)
                 open_loops.append(v)
-                stmts.append(["for", v, g.num(1), g.num(1), draw(st.sampled_from([None, None, ["num", "2", 2], ["neg", ["num", "1", 1]]]))])
+                stmts.append(["for", v, g.num(1), g.num(1), draw(st.sampled_from([None, None, ["num", "2", 2], ["neg", ["num", "1", 1]], "e"]))])
+                if stmts[-1][4] == "e":
+                    stmts[-1][4] = fg.e()
             elif r < 15 and open_loops:
                 fg.kinds.add("next")
                 if len(open_loops) >= 2 and draw(st.booleans()):
@@ -436,10 +464,29 @@ def full_programs(draw, switches=frozenset(), max_lines=10, operand_depth=1, wit
                 c = g.cond(2)
                 form = draw(st.sampled_from(["plain", "line", "else", "elseline", "elseif", "line_elseif"]))
                 def one():
-                    s_ = fg.misc() if draw(st.booleans()) else (fg.device()[0] if draw(st.booleans()) else fg.tail_let())
-                    if s_[0] in ("rem", "data"):  # REM / unquoted DATA would swallow a following ELSE
-                        s_ = ["let", ["var", "B"], ["num", "2", 2], False]
-                    return [s_]
+                    out_ = []
+                    for _q in range(draw(st.sampled_from([1, 1, 1, 2]))):
+                        r_ = draw(st.integers(0, 10))
+                        if r_ < 4:
+                            s_ = fg.misc()
+                        elif r_ < 6:
+                            s_ = fg.device()[0]
+                        elif r_ < 8:
+                            s_ = fg.tail_let()
+                        elif r_ == 8:
+                            fg.kinds.add("jump_in_branch")
+                            s_ = [draw(st.sampled_from(["goto", "gosub", "gosub"])), draw(st.sampled_from(nums))]
+                        elif r_ == 9:
+                            fg.kinds.add("on_go_in_branch")
+                            s_ = ["on", fg.e() if draw(st.booleans()) else g.integer(1), draw(st.sampled_from(["GOTO", "GOSUB"])),
+                                  draw(st.lists(st.sampled_from(nums), min_size=1, max_size=3))]
+                        else:
+                            fg.kinds.add("single_kw_in_branch")
+                            s_ = [draw(st.sampled_from(["return", "end", "stop", "restore"]))]
+                        if s_[0] in ("rem", "data"):  # REM / unquoted DATA would swallow a following ELSE
+                            s_ = ["let", ["var", "B"], ["num", "2", 2], False]
+                        out_.append(s_)
+                    return out_
 
                 if form != "plain" and form != "line":
                     g.in_ifelse_cond = True
@@ -480,7 +527,7 @@ def full_programs(draw, switches=frozenset(), max_lines=10, operand_depth=1, wit
             fg.kinds.add("apostrophe_comment_without_colon")
         lines.append([ln, stmts])
     # a READ somewhere + an empty DATA item switches on the tool's READ/DATA patching (string temporaries, ecb_read_filter)
-    if "read" in fg.kinds and draw(st.booleans()):
+    if "read" in fg.kinds and (fg.empty_data or draw(st.booleans())):
         fg.kinds.add("read_with_empty_data_item")
         tail_ln = nums[-1] + step if not open_loops else nums[-1] + 2 * step
         lines.append([tail_ln + step, [["data", [["e"], ["n", "1", 1], ["q", "Z"]]]]])
